@@ -9,9 +9,8 @@ white space and digits, signs, fraction / exponent near-misses, random edits, tr
   * `drv_c06`  op `parse` and `drv_c01` op `exec` for the one-line script `v = <text>` (text-level parser model + machine on HostImpl),
   * the REAL `_R_EXPR_NUMBER` / `float`, `parse_expression`, `parse_script` + `execute_script`;
 all must agree.  The two Lean models are compared with each other exactly where `C13Bridge.scanNumber_eq_literal` /
-`parseExprL_number` / `parseExprL_neg_number` / `parseScript_assign` say they agree (texts whose `\\d` characters are ASCII digits);
-outside that domain (`scanners_differ_on_unicode_digit`) only `NumText` is compared with the implementation and the case is
-tagged `unicode-digit(models-differ)`.
+`parseExprL_number` / `parseExprL_neg_number` / `parseScript_assign` say they agree: on EVERY text, Unicode decimal digits included
+(`ExprScan` has the Unicode `\\d` with the digit values; cases with a non-ASCII decimal digit are tagged `unicode-digit`).
 Implementation oracles (property statement): `v = <value_string(x)>` binds `v` to exactly `x` (every finite x, both signs);
 `'' + <text of an integral x>` evaluates to the same text.
 """
@@ -25,7 +24,8 @@ import fw
 
 THEOREMS = [
     'C13Bridge.isPySpace_eq', 'C13Bridge.val_bridge', 'C13Bridge.numCore_eq_scanTok', 'C13Bridge.scanNumber_eq_literal',
-    'C13Bridge.scanners_differ_on_unicode_digit', 'C13Bridge.literal_floatRaises_nonascii',
+    'C13Bridge.isDigit_eq_isDig', 'C13Bridge.digitVal_eq_digVal', 'C13Bridge.floatText_text_uni',
+    'C13Bridge.scanners_agree_on_unicode_digit', 'C13Bridge.literal_never_floatRaises',
     'C13Bridge.parseExprL_number', 'C13Bridge.parseExprL_neg_number',
     'C13Bridge.parseExpr_valueString', 'C13Bridge.parseExpr_valueString_neg', 'C13Bridge.parseExpr_valueString_any',
     'C13Bridge.literal_parse_roundtrip', 'C13Bridge.literal_parse_roundtrip_neg',
@@ -51,7 +51,7 @@ def _c02():
 
 
 def ascii_digits_only(text):
-    """`C13Bridge.AsciiDigitsOnly`: every character that is a decimal digit for re / float() is an ASCII digit."""
+    """every character that is a decimal digit for re / float() is an ASCII digit (a coverage tag only: the models agree everywhere)"""
     return all('0' <= c <= '9' for c in text if unicodedata.decimal(c, None) is not None)
 
 
@@ -128,9 +128,11 @@ def text_cases(ctx):
             x = rng.choice(xs)
             text = rng.choice(LEADERS) + base.mutate(rng, m['value'].value_string(x)) + rng.choice(TRAILERS)
         else:
-            ip = base.gen_digits(rng, 1, rng.choice([1, 3, 18, 30]), us=0.02)
-            fp = rng.choice(['', '', '.', '.' + base.gen_digits(rng, 1, 4, us=0.0)])
-            ex = rng.choice(['', '', 'e+' + str(rng.randint(0, 320)), 'e-' + str(rng.randint(0, 340)), 'e' + str(rng.randint(0, 9)), 'E+1', 'e+', 'e-'])
+            uni = 0.04 if rng.random() < 0.7 else rng.choice([0.5, 1.0])      # a family written (mostly) in non-ASCII decimal digits
+            ip = base.gen_digits(rng, 1, rng.choice([1, 3, 18, 30]), uni=uni, us=0.02)
+            fp = rng.choice(['', '', '.', '.' + base.gen_digits(rng, 1, 4, uni=uni, us=0.0)])
+            ex = rng.choice(['', '', 'e+' + str(rng.randint(0, 320)), 'e-' + str(rng.randint(0, 340)), 'e' + str(rng.randint(0, 9)), 'E+1', 'e+', 'e-',
+                             'e+' + base.gen_digits(rng, 1, 2, uni=uni, us=0.0), 'e-' + base.gen_digits(rng, 1, 3, uni=uni, us=0.0)])
             text = rng.choice(LEADERS) + ip + fp + ex + rng.choice(TRAILERS)
         if R_BIG_EXPONENT.search(text) or any(0xd800 <= ord(c) <= 0xdfff for c in text) or '\x00' in text:
             continue
@@ -163,9 +165,9 @@ def streams(ctx):
         if 'skip' in lit[i]:
             continue
         ml = model_literal(lit[i])
-        dom = ascii_digits_only(text)
+        dom = True                       # C13Bridge.scanNumber_eq_literal has no hypothesis any more
         body = text.lstrip()
-        tags = [origin, 'match' if isinstance(il, dict) else 'no-match', 'ascii-digits' if dom else 'unicode-digit(models-differ)']
+        tags = [origin, 'match' if isinstance(il, dict) else 'no-match', 'ascii-digits' if ascii_digits_only(text) else 'unicode-digit']
         whole = isinstance(ml, dict) and text[ml['consumed']:].strip() == ''
         if whole:
             tags.append('whole-text-literal')
@@ -176,7 +178,7 @@ def streams(ctx):
         if il == 'floatRaises':
             ctx.witness('float(match.group(1)) never raises', case, 'a float', il)
 
-        # (b) the expression parser model against the real parse_expression (inside the ASCII \w \d domain of ExprScan)
+        # (b) the expression parser model against the real parse_expression
         ip = c02.impl_out(c02.run_impl(text))
         if c02.in_model(text):
             ctx.compare('literal-bridge:parse_expression', case, ip, c02.model_out(par[i]))
